@@ -112,7 +112,8 @@ Inductive answer :=
 | ASel (r w e h : list fdt)                (* select answer (r, w, e; h = []); poll2 answer: POLLIN, POLLOUT, POLLPRI, HUP|ERR|NVAL *)
 | AExpt (r : expt_ans)                     (* getsockopt(SO_ERROR) in handle_expt_event *)
 | AApp (a : app_act)
-| AKeep (keep : bool)                      (* do the closed buffers still report a length (strbuf stage) *)
+| ABufLen (n : nat)                        (* what the closed buffers still report as their length (strbuf stage keeps it) *)
+| AKeep (keep : bool)                      (* service(): task.wrote_header *)
 | AMaint (mA mB : bool).                   (* maintenance marks A / B *)
 
 Inductive sockst := SOpen | SClosed | SNone.   (* socket.close() done / self.socket = None done *)
@@ -187,6 +188,8 @@ Inductive instr :=
 | ISetCwf (c : chan)            (* close_when_flushed = True; close requests; requests = [] *)
 | ISvcPop (c : chan)            (* requests.pop(0); the add_task / send_continue tests *)
 | ISvcTail (c : chan)           (* `if self.connected: pull_trigger()`; last_activity *)
+| IPull (c : chan)              (* self.server.pull_trigger() *)
+| IAddTask (c : chan)           (* self.server.add_task(self) *)
 (* -- frames *)
 | KWasyn (f : fdt)              (* wasyncore.read/write/_exception: except _reraised: raise; except: obj.handle_error() *)
 | KReadwrite (f : fdt)          (* wasyncore.readwrite's ladder *)
@@ -543,8 +546,8 @@ Definition exec (g : cfg) (t : tid) (i : instr) (a : answer) (s : state) : resul
       if it_empty it then
         Norm (setc s c (upd_req x (nreq x) false false (queued x))) [IRcvLoop c rest] []
       else
-        Norm (setc s c (upd_req x (S (nreq x)) false false (if nreq x =? 0 then true else queued x)))
-             [IRcvLoop c rest] []
+        Norm (setc s c (upd_req x (S (nreq x)) false false (queued x)))
+             ((if nreq x =? 0 then [IAddTask c] else []) ++ [IRcvLoop c rest]) []
     else
       Norm (setc s c (upd_req x (nreq x) (it_expect it) (sentc x) (queued x))) [IRcvLoop c rest] []
   | IHwChoose c =>
@@ -575,8 +578,7 @@ Definition exec (g : cfg) (t : tid) (i : instr) (a : answer) (s : state) : resul
   (* ---------------- send_continue / _flush_some ---------------- *)
   | IContPre c =>
     let x := getc s c in
-    Norm (setc s c (upd_req x (nreq x) false (sentc x) (queued x))) []
-         (match t with W _ => [LWCont c] | IO => [] end)
+    Norm (setc s c (upd_req x (nreq x) false (sentc x) (queued x))) [] []
   | IContAppend c =>
     let x := getc s c in
     if bufc x then Raise s XValueError []
@@ -615,8 +617,8 @@ Definition exec (g : cfg) (t : tid) (i : instr) (a : answer) (s : state) : resul
   | IHClose c => Norm s (hclose_body c) [LHClose t c]
   | ICloseBufs c =>
     let x := getc s c in
-    let keep := match a with AKeep b => b | _ => false end in
-    let x1 := upd_bufs x true 0 (if keep then buf x else 0) (wire x) in
+    let left := match a with ABufLen n => Nat.min n (buf x) | _ => 0 end in
+    let x1 := upd_bufs x true 0 left (wire x) in
     Norm (setc s c (upd_conn x1 false)) [] [LBufsClosed t c]
   | INotifyO c =>
     let x := getc s c in
@@ -696,11 +698,11 @@ Definition exec (g : cfg) (t : tid) (i : instr) (a : answer) (s : state) : resul
       Norm (setth s t (set_lexc me false)) ([IAcqO c] ++ flush_some c false ++ [KFlushExc c; IFbhAfter c; KRelO c]) []
     else Norm s [] []
   | IFbhAfter c =>
-    if lexc me then Norm s [IWaitO c] []       (* pull_trigger(); wait(); return *)
+    if lexc me then Norm s [IPull c; IWaitO c] []       (* pull_trigger(); wait(); return *)
     else Norm s [IFbhLoop c] []
   | IFbhLoop c =>
     let x := getc s c in
-    if conn x && (hw g <? pend x) then Norm s [IWaitO c; IFbhLoop c] [] else Norm s [] []
+    if conn x && (hw g <? pend x) then Norm s [IPull c; IWaitO c; IFbhLoop c] [] else Norm s [] []
   | IWsChk2 c => if conn (getc s c) then Norm s [] [] else Raise s XClientDisconnected []
   | IWsAppend c n =>
     let x := getc s c in
@@ -711,7 +713,9 @@ Definition exec (g : cfg) (t : tid) (i : instr) (a : answer) (s : state) : resul
     if send_bytes g <=? pend x then
       Norm (setth s t (set_lexc me false)) (flush_some c false ++ [KFlushExc c; IWsAfter c]) []
     else Norm s [] []
-  | IWsAfter c => Norm s [] []                 (* pull_trigger() or not: the trigger is not modelled *)
+  | IWsAfter c =>
+    let x := getc s c in
+    if lexc me || negb (lsent me) || (send_bytes g <=? pend x) then Norm s [IPull c] [] else Norm s [] []
   | ISvcEnd c =>
     let x := getc s c in
     if lcof me then Norm s [IAcqR c; ISetCwf c; IRelR c; ISvcTail c] []
@@ -723,11 +727,13 @@ Definition exec (g : cfg) (t : tid) (i : instr) (a : answer) (s : state) : resul
   | ISvcPop c =>
     let x := getc s c in
     let n := pred (nreq x) in
-    if conn x && (0 <? n) then Norm (setc s c (upd_req x n (pexp x) (sentc x) true)) [] []
+    if conn x && (0 <? n) then Norm (setc s c (upd_req x n (pexp x) (sentc x) (queued x))) [IAddTask c] []
     else if conn x && pexp x && negb (sentc x) then
-      Norm (setc s c (upd_req x n (pexp x) (sentc x) (queued x))) (send_continue c) []
+      Norm (setc s c (upd_req x n (pexp x) (sentc x) (queued x))) (send_continue c) [LWCont c]
     else Norm (setc s c (upd_req x n (pexp x) (sentc x) (queued x))) [] []
-  | ISvcTail c => Norm s [] []
+  | ISvcTail c => if conn (getc s c) then Norm s [IPull c] [] else Norm s [] []
+  | IPull c => Norm s [] []                    (* the trigger's state is not modelled *)
+  | IAddTask c => let x := getc s c in Norm (setc s c (upd_req x (nreq x) (pexp x) (sentc x) true)) [] []
   (* ---------------- frames reached normally ---------------- *)
   | KWasyn _ | KReadwrite _ | KFlushExc _ | KSvcTry _ | KSvcTry2 _ | KWorkerTop _ => Norm s [] []
   | KAccTry c => Norm s [IInitGso c; IInitSbl c; IAddChan c] []
@@ -833,3 +839,44 @@ Definition run_tr (g : cfg) (sched : list choice) : state * list label :=
   fold_left (exec1 g) sched (init, []).
 Definition run (g : cfg) (sched : list choice) : state := fst (run_tr g sched).
 Definition trace (g : cfg) (sched : list choice) : list label := snd (run_tr g sched).
+
+(* ---------------------------------------------------------------------- *)
+(** * Support for the correspondence (not used by the proofs)
+
+   [wants]: the instruction consults the environment's answer in this state.
+   [is_yield]: the instruction is a scheduling point of the deterministic
+   scheduler harness (harness/chanfault.py) at its "locks + socket calls"
+   granularity: a real logical thread stops BEFORE such an operation; what lies
+   between two scheduling points runs without interruption in the harness, so
+   the driver executes the instructions that are not scheduling points eagerly,
+   right after the scheduling point that precedes them. *)
+
+Definition wants (s : state) (t : tid) (i : instr) : bool :=
+  match i with
+  | ISelect _ _ _ | IAccept | ISetOpts _ | IInitGso _ | IInitSbl _ | ICloseBufs _ | IApp _ | IErrTask _ => true
+  | IRecv c | IExpt c => match sock (getc s c) with SOpen => true | _ => false end
+  | IFlush c _ => negb (buf (getc s c) =? 0) && match sock (getc s c) with SOpen => true | _ => false end
+  | _ => false
+  end.
+
+Definition final_release (l : option (tid * nat)) : bool :=
+  match l with Some (_, 1) => true | _ => false end.
+
+Definition is_yield (s : state) (t : tid) (i : instr) : bool :=
+  match i with
+  | ISelect _ _ _ | IAccept | ISetOpts _ | IInitGso _ | IInitSbl _
+  | ITryAcqO _ | IAcqR _ | IRelR _ | KRelR _ | IWaitO _ | IWake _ _ | INotifyO _ | IPull _ | IAddTask _ => true
+  | IAcqO c => match olock (getc s c) with Some (o, _) => negb (tid_eqb o t) | None => true end
+  | IRelO c | KRelO c => final_release (olock (getc s c))
+  | IRecv c | IExpt c | ISockClose c => match sock (getc s c) with SNone => false | _ => true end
+  | IFlush c _ => negb (buf (getc s c) =? 0) && match sock (getc s c) with SNone => false | _ => true end
+  | _ => false
+  end.
+
+(* the next micro-step of thread t, if any, as (instruction, is it a frame met while unwinding) *)
+Definition next_instr (s : state) (t : tid) : option (instr * bool) :=
+  let me := getth s t in
+  match raising me with
+  | Some _ => match drop_to_frame (stk me) with [] => None | k :: _ => Some (k, true) end
+  | None => match stk me with [] => None | i :: _ => Some (i, false) end
+  end.
